@@ -277,6 +277,9 @@ func atomsOf(stmt string) ([]atom, bool) {
 				as = append(as, atom{"-", "CONSTRAINT", constraintKey(tbl, idOf(c[2])), ""})
 			case len(c) >= 4 && c[0] == "DROP" && c[1] == "FOREIGN" && c[2] == "KEY" && isID(c[3]):
 				as = append(as, atom{"-", "CONSTRAINT", constraintKey(tbl, idOf(c[3])), ""})
+			case len(c) >= 2 && c[0] == "ADD" && (c[1] == "CHECK" || c[1] == "FOREIGN" || c[1] == "UNIQUE" && !(len(c) >= 3 && c[2] == "INDEX")):
+				// a constraint without a name: the server generates one
+				as = append(as, atom{"+", "CONSTRAINT", "<unnamed>", ""})
 			case len(c) >= 3 && c[0] == "ADD" && c[1] == "PRIMARY" && c[2] == "KEY":
 				as = append(as, atom{"+", "CONSTRAINT", "<pk>", ""})
 			case len(c) >= 3 && c[0] == "DROP" && c[1] == "PRIMARY" && c[2] == "KEY":
